@@ -231,16 +231,17 @@ __inst_to_epoch(echs_instant_t i)
 		122U, 153U, 184U, 214U, 245U, 275U
 	};
 	/* years run from Mar to Feb, Jan and Feb belong to the previous one */
-	unsigned int by = i.y - DAISY_BASE_YEAR - (i.m < 3U);
-	/* no bullshit years in our lifetime */
-	unsigned int j0 = by * 365U + by / 4U;
+	int by = (int)i.y - (int)DAISY_BASE_YEAR - (i.m < 3U);
+	/* no bullshit years in our lifetime, round down before the base year */
+	int j0 = by * 365 + (by >= 0 ? by / 4 : -((3 - by) / 4));
 	/* yday by lookup */
 	unsigned int yd = (LIKELY(i.m <= 12U))
 		? __mon_yday[i.m] + i.d
 		: 0U;
 
-	return ((((j0 + yd - DAISY_UNIX_BASE) * 24U +
-		  (LIKELY(i.H <= 24U) ? i.H : 24U)) * 60U + i.M) * 60U) + i.S;
+	/* days before the unix epoch count negative */
+	return ((((time_t)(j0 + (int)yd - (int)DAISY_UNIX_BASE) * 24 +
+		  (LIKELY(i.H <= 24U) ? i.H : 24U)) * 60 + i.M) * 60) + i.S;
 }
 
 static echs_instant_t
